@@ -323,7 +323,9 @@ func c19(x *Ctx) {
 	as := &eng.Assume{Bool: func(v ssa.Value) eng.Tri {
 		if b, ok := v.(*ssa.BinOp); ok {
 			var other ssa.Value
-			isTID := func(u ssa.Value) bool { return loadsField(u, func(fr eng.FieldRef) bool { return fr.Name == "MetaTraceID" }) }
+			isTID := func(u ssa.Value) bool {
+				return loadsField(u, func(fr eng.FieldRef) bool { return fr.Name == "MetaTraceID" })
+			}
 			if isTID(b.X) {
 				other = b.Y
 			} else if isTID(b.Y) {
